@@ -187,8 +187,13 @@ inductive DErr
   | day (i : Nat) (e : VErr)    -- "weekday %s: bad day range: …"
 deriving DecidableEq, Repr
 
+/-- "UTC" -/
+def utcName : Bytes := [85, 84, 67]
+/-- "Local" -/
+def localName : Bytes := [76, 111, 99, 97, 108]
+
 /-- `time.LoadLocation(name).String()`: `""` loads UTC, whose name is `"UTC"`. -/
-def locName (tz : Bytes) : Bytes := if tz = [] then Bytes.ofString "UTC" else tz
+def locName (tz : Bytes) : Bytes := if tz = [] then utcName else tz
 
 /-- `UnmarshalJSON` / `UnmarshalYAML` after the library parse. -/
 def decodeConf (tzOK : Bytes → Bool) (c : Conf) : Except DErr Weekly :=
@@ -214,9 +219,9 @@ same `Conf`; `renderYAML` below omits them. -/
 def encodeConfYAML (w : Weekly) : Conf := ⟨w.loc, w.days.map some⟩
 
 /-- `EmptyWeekly()` (`time.Local` has the name "Local"). -/
-def emptyWeekly : Weekly := ⟨Bytes.ofString "Local", Week.const DayRange.zero⟩
+def emptyWeekly : Weekly := ⟨localName, Week.const DayRange.zero⟩
 /-- `FullWeekly()` -/
-def fullWeekly : Weekly := ⟨Bytes.ofString "Local", Week.const ⟨0, maxDayRange⟩⟩
+def fullWeekly : Weekly := ⟨localName, Week.const ⟨0, maxDayRange⟩⟩
 
 /-! ### Number and duration tokens -/
 
@@ -244,21 +249,29 @@ integer below 2^53 (then the float is exact and prints as its decimal digits);
 def jsonDurEncode (ns : Int) : Option Bytes :=
   if ns % 1000000 = 0 ∧ ns.natAbs ≤ 9007199254000000 then some (renderInt (ns / 1000000)) else none
 
+/-- A leading '-' (JSON numbers have no '+'). -/
+def stripMinus : Bytes → Bool × Bytes
+  | 45 :: r => (true, r)
+  | r => (false, r)
+
+/-- The optional sign of `time.ParseDuration`. -/
+def stripSign : Bytes → Bool × Bytes
+  | 45 :: r => (true, r)
+  | 43 :: r => (false, r)
+  | r => (false, r)
+
 /-- `JSONDuration.UnmarshalJSON`: `int64(ParseFloat(tok) * 1e6)`.  Modelled for
 integer literals `-?[0-9]+` with `|ms| * 1e6 < 2^53` (conversion, product and
 truncation are then exact); `none` = not modelled (fractions, exponents, huge
 values: float64 behaviour is an oracle there). -/
 def jsonDurDecode (tok : Bytes) : Option Int :=
-  let (neg, ds) := match tok with
-    | 45 :: r => (true, r)
-    | r => (false, r)
-  match ds with
-  | [] => none
-  | _ =>
-    match leadingInt 0 ds with
-    | (ms, []) =>
-      if ms ≤ 9007199254 then some (if neg then -((ms : Int) * 1000000) else (ms : Int) * 1000000) else none
-    | _ => none
+  let p := stripMinus tok
+  if p.2 = [] then none
+  else
+    let q := leadingInt 0 p.2
+    if q.2 = [] then
+      (if q.1 ≤ 9007199254 then some (if p.1 then -((q.1 : Int) * 1000000) else (q.1 : Int) * 1000000) else none)
+    else none
 
 /-- `timeutil.Duration.String` (= `MarshalText`) on the durations a valid
 schedule holds: non-negative whole minutes.  `time.Duration.String` gives
@@ -330,14 +343,11 @@ def parseDurLoop : Nat → Int → Bytes → PRes
 
 /-- `time.ParseDuration` = `timeutil.Duration.UnmarshalText`. -/
 def parseDur (tok : Bytes) : PRes :=
-  let (neg, s) := match tok with
-    | 45 :: r => (true, r)
-    | 43 :: r => (false, r)
-    | r => (false, r)
-  if s = [48] then .ok 0
-  else if s = [] then .err
-  else match parseDurLoop (s.length + 1) 0 s with
-    | .ok d => .ok (if neg then -d else d)
+  let p := stripSign tok
+  if p.2 = [48] then .ok 0
+  else if p.2 = [] then .err
+  else match parseDurLoop (p.2.length + 1) 0 p.2 with
+    | .ok d => .ok (if p.1 then -d else d)
     | r => r
 
 /-! ### Documents (token level) and their byte rendering -/
